@@ -14,15 +14,15 @@ import (
 // unit is one function unit: a template definition rendered with an abstract dot.
 type unit struct {
 	Set     string
-	Def     string          // definition name ("" = the set's root template)
-	Name    string          // key used in obligations (defaults to Def)
-	DotRel  string          // package of the dot's Go type
-	DotType string          // Go type of the dot
-	Stub    []string        // callee templates rendered as nothing
-	Lists   []int           // element counts for abstract slices (default from config)
-	Cats    []string        // categories offered (default from config)
-	Fixed   map[string]int  // fixed oracle answers
-	Depth   int             // container nesting bound override (0 = config)
+	Def     string         // definition name ("" = the set's root template)
+	Name    string         // key used in obligations (defaults to Def)
+	DotRel  string         // package of the dot's Go type
+	DotType string         // Go type of the dot
+	Stub    []string       // callee templates rendered as nothing
+	Lists   []int          // element counts for abstract slices (default from config)
+	Cats    []string       // categories offered (default from config)
+	Fixed   map[string]int // fixed oracle answers
+	Depth   int            // container nesting bound override (0 = config)
 	MaxRuns int
 	Wrap    bool // rendering is a statement list, wrap into a function
 }
